@@ -257,20 +257,32 @@ Definition rx_complete_refuted_stmt : Prop :=
    transmission and FEWER THAN 8 messages were started between the run's first and last frame (otherwise the 3-bit sequence id aliases,
    which no receiver can detect), then all frames of the run belong to ONE sent message, they are its frames 0..n in order, and the
    delivered PGN, priority, source, destination and payload are the sent ones. *)
-Definition sent_frames (id s0:Z) (payloads:list (list Z)) : list (nat * rxframe) :=
-  flat_map (fun jp => map (fun b => (fst jp, mkf id b)) (fp_frames (Z.shiftl ((s0 + Z.of_nat (fst jp)) mod 8) 5) (snd jp)))
-           (combine (seq 0 (length payloads)) payloads).
+Definition msg_frames (id s0:Z) (payloads:list (list Z)) (j:nat) : list rxframe :=
+  map (mkf id) (fp_frames (Z.shiftl ((s0 + Z.of_nat j) mod 8) 5) (nth j payloads [])).
 Definition runs_are_sent_stmt : Prop :=
-  forall prio pgn src dst s0 payloads fs m idx (pos:list nat),
+  forall prio pgn src dst s0 payloads fs m idx (js ns:list nat),
     id_args_ok prio pgn src dst -> (pdu1 pgn = true -> pgn mod 256 = 0) -> 0 <= s0 < 8 ->
     Forall (fun p => (length p <= 223)%nat /\ Forall (fun b => 0 <= b < 256) p) payloads ->
-    let sent := sent_frames (to_can_id prio pgn src dst) s0 payloads in
+    let id := to_can_id prio pgn src dst in
     fast_just fs m idx ->
-    (* the run's frames are frames of this transmission, in transmission order *)
-    length pos = length idx -> increasing pos ->
-    (forall k, (k < length idx)%nat -> exists j, nth_error sent (nth k pos 0%nat) = Some (j, nth k (map (fun i => nth i fs (mkf 0 [])) idx) (mkf 0 []))) ->
-    (* no aliasing: fewer than 8 messages started from the run's first to its last frame *)
-    (forall j1 j2 g1 g2, nth_error sent (hd 0%nat pos) = Some (j1, g1) -> nth_error sent (last pos 0%nat) = Some (j2, g2) -> (j2 < j1 + 8)%nat) ->
-    exists j payload, nth_error payloads j = Some payload /\
-      m_data m = payload /\ m_pgn m = pgn /\ m_pri m = prio /\ m_src m = src /\ m_dst m = (if pdu1 pgn then dst else 255) /\
-      length idx = length (fp_frames 0 payload).
+    (* frame k of the run is frame number ns[k] of sent message number js[k] *)
+    length js = length idx -> length ns = length idx ->
+    (forall k, (k < length idx)%nat -> (nth k js 0 < length payloads)%nat /\
+        nth_error fs (nth k idx 0%nat) = nth_error (msg_frames id s0 payloads (nth k js 0%nat)) (nth k ns 0%nat)) ->
+    (* the bus keeps the order of transmission *)
+    (forall k, (S k < length idx)%nat -> (nth k js 0 < nth (S k) js 0)%nat \/ (nth k js 0 = nth (S k) js 0 /\ nth k ns 0 < nth (S k) ns 0)%nat) ->
+    (* no aliasing: fewer than 8 messages of this PGN were started from the run's first frame to its last *)
+    (nth (length idx - 1) js 0 < nth 0 js 0 + 8)%nat ->
+    let j := nth 0 js 0%nat in
+    (forall k, (k < length idx)%nat -> nth k js 0%nat = j /\ nth k ns 0%nat = k) /\
+    m_data m = nth j payloads [] /\ m_pgn m = pgn /\ m_pri m = prio /\ m_src m = src /\ m_dst m = (if pdu1 pgn then dst else 255).
+(* the part that needs no analysis of sequence ids: a run that consists of the frames of ONE sent message, in order, from its first frame
+   on, delivers that message *)
+Definition runs_are_sent_partial_stmt : Prop :=
+  forall prio pgn src dst sid payload fs m idx,
+    id_args_ok prio pgn src dst -> (pdu1 pgn = true -> pgn mod 256 = 0) -> 0 <= sid < 8 ->
+    (length payload <= 223)%nat -> Forall (fun b => 0 <= b < 256) payload ->
+    fast_just fs m idx ->
+    (forall k, (k < length idx)%nat ->
+        nth_error fs (nth k idx 0%nat) = nth_error (map (mkf (to_can_id prio pgn src dst)) (fp_frames (Z.shiftl sid 5) payload)) k) ->
+    m_data m = payload /\ m_pgn m = pgn /\ m_pri m = prio /\ m_src m = src /\ m_dst m = (if pdu1 pgn then dst else 255).
